@@ -268,3 +268,72 @@ def body_init_false(n: int, i: int, j: int, shape: int) -> int:
     else:
         v = {'x': i} if n <= 1 else {'x': i, 'n': j}
     return roundtrip(shared.PI, v)
+
+
+# ------------------------------------------------------------------ renamed field whose python name is another field's data name; dates in unions
+
+class R8(PaneBase):
+    id: int = field(rename='uid')
+    id_: str = field(rename='id', default='')
+    n: int = 0
+
+
+make_converter(R8)
+
+
+@obligation(pre="0 <= y1 <= 2 and 0 <= y2 <= 2", witnesses=(0, -1), timeout=200)
+def body_r8(y1: int, y2: int, i: int, hs: bool) -> int:
+    """R8: a field renamed away from its python name, and a later field renamed TO that name"""
+    d = {}
+    d['uid' if y1 == 0 else ('id' if y1 == 1 else 'zz')] = i
+    if hs:
+        k2 = 'id' if y2 == 0 else ('id_' if y2 == 1 else 'uid')
+        if k2 in d:
+            return -99
+        d[k2] = 'sv'
+    r = roundtrip(R8, d)
+    if r == 0 and y1 == 0 and hs and y2 == 0:
+        x = R8.from_data(d)
+        if x.id != i or x.id_ != 'sv':          # 'id' is the data name of id_
+            return 4
+    return r
+
+
+import datetime
+DT_TYPES = (datetime.date, datetime.datetime, datetime.time, t.Union[datetime.date, datetime.datetime],
+            t.Union[datetime.time, datetime.datetime], t.Optional[datetime.datetime], t.List[t.Union[datetime.date, datetime.datetime]],
+            t.Union[datetime.datetime, datetime.date])
+DT_TEXTS = ('2020-01-02', '2020-01-02T03:04:05', '03:04:05', '2020-01-02T00:00:00', '2020-01-02T03:04:05.000678', 'nope')
+for _ty in DT_TYPES:
+    make_converter(_ty)
+
+
+@obligation(pre="0 <= ty <= 7 and 0 <= tx <= 5", witnesses=(0, -1), timeout=200)
+def body_dates(ty: int, tx: int) -> int:
+    """date / datetime / time alone and in unions (text from a concrete vocabulary): a datetime read through Union[date, datetime] comes back as that datetime"""
+    n = 0
+    T = DT_TYPES[0]
+    for x in DT_TYPES:
+        if n == ty:
+            T = x
+        n += 1
+    n = 0
+    txt = DT_TEXTS[0]
+    for x in DT_TEXTS:
+        if n == tx:
+            txt = x
+        n += 1
+    return roundtrip(T, [txt] if ty == 6 else txt)
+
+
+for _a in ((0, 0, 1, True), (1, 1, 1, True)):
+    try:
+        body_r8(*_a)
+    except Exception:
+        pass
+for _ty in range(8):
+    for _tx in range(6):
+        try:
+            body_dates(_ty, _tx)
+        except Exception:
+            pass
